@@ -261,10 +261,7 @@ struct Hist {
   // observe slot s with `kind`; then the same question to a fresh problem built from the same data
   void observe(int s, int kind) {
     Slot& S = slot[s];
-    bool on_copy = r.chance(1, 6);     // observing a copy leaves the incremental state of the original untouched
-    bool okc;
-    if (on_copy) { MIP_Problem cp(*S.p); okc = observe_one("obs", s, cp, S.d.dim, kind); }
-    else okc = observe_one("obs", s, *S.p, S.d.dim, kind);
+    bool okc = observe_one("obs", s, *S.p, S.d.dim, kind);
     if (!okc) { drop(s); return; }
     MIP_Problem f(S.d.dim);
     build_fresh(f, S.d, r.below(3));
